@@ -5,14 +5,12 @@
    or `gen_equiv`.  The properties of the closed form (increasing, distinct, outside 10..14, one slot per
    parameter in order) are proved below and transported to the generated function. *)
 From Coq Require Import ZArith List Bool Lia Sorted.
-From PV Require Import PyLib.
+From PV Require Import PyLib Auto.
 From PVG Require Import Gen_auto_param_indices.
 Import ListNotations.
 Open Scope Z_scope.
 
-(* closed form: 0-based parameter position i -> 1-based PAR slot *)
-Definition slot (i : Z) : Z := if i <? 9 then i + 1 else i + 6.
-Definition slots (n : nat) : list Z := map (fun k => slot (Z.of_nat k)) (seq 0 n).
+(* closed form: Auto.slot / Auto.slots *)
 
 (* invariant of the generated loop: before iteration k the increment is 1 (k <= 9) or 6 (k > 9) *)
 Definition inc_at (k : Z) : Z := if k <=? 9 then 1 else 6.
